@@ -46,6 +46,7 @@ func has[K comparable, V any](m map[K]V, k K) bool { _, ok := m[k]; return ok }
 func heldPolicy() bool                             { panic("spec") }
 func heldShard() bool                              { panic("spec") }
 func heldShardR() bool                             { panic("spec") }
+func heldToken() bool                              { panic("spec") }
 func owned(x any) bool                             { panic("spec") }
 func same(a, b any) bool                           { panic("spec") }
 func wsum(l any) int64                             { panic("spec") } // sum of policyWeight over the ghost member set of list l
